@@ -61,6 +61,8 @@ type FuncContract struct {
 	Trusted       bool
 	Inline        bool
 	NoInline      bool
+	AssertAfterStore map[string][]Clause // field (T.f) -> assertions proved after every assignment to it
+	NameMerges    bool // merged heap arrays get a name and a defining equation at every join (see mergeStates)
 	Allocates     bool
 	Callbacks     map[string]*Callback
 	ParamNames    []string
@@ -359,6 +361,21 @@ func (cs *Contracts) loadFile(path string, pkgName string, commentPrefix bool) e
 				}
 			case "loop", "assert":
 				f := strings.Fields(rest)
+				if kw == "assert" {
+					// assert after-store <T.f> <expr>
+					if len(f) < 3 || f[0] != "after-store" {
+						return perr(fmt.Errorf("expected: assert after-store <T.f> <expr>"))
+					}
+					text := strings.TrimSpace(rest[strings.Index(rest, f[1])+len(f[1]):])
+					e, err := parseCE(text)
+					if err != nil {
+						return perr(err)
+					}
+					if cur.AssertAfterStore == nil {
+						cur.AssertAfterStore = map[string][]Clause{}
+					}
+					cur.AssertAfterStore[f[1]] = append(cur.AssertAfterStore[f[1]], Clause{Expr: e, Props: props, Text: text, Where: where})
+				}
 				if kw == "loop" {
 					if len(f) < 3 || (f[1] != "invariant" && f[1] != "step") {
 						return perr(fmt.Errorf("expected: loop <n> invariant|step <expr>"))
@@ -447,6 +464,8 @@ func (cs *Contracts) loadFile(path string, pkgName string, commentPrefix bool) e
 				cur.Inline = true
 			case "noinline":
 				cur.NoInline = true
+			case "merge-names":
+				cur.NameMerges = true
 			case "assume-requires":
 				// named assumption: the preconditions of these callees are assumed (not proved) at
 				// their call sites in this function; every use is listed in the evidence ledger
